@@ -289,6 +289,10 @@ startConn:
 	// Reset the state.
 	c.state.reset(false)
 
+	// Nothing queued by a previous connection may leak into this one: drop
+	// events it received but never processed, and output it never wrote.
+	c.drainQueues()
+
 	addr := c.server()
 
 	if mock == nil {
@@ -397,6 +401,20 @@ startConn:
 	c.mu.Unlock()
 
 	return err
+}
+
+// drainQueues empties the receive and send buffers. It must be called with
+// c.mu held for writing and no connection loops running, so that nothing is
+// enqueued concurrently.
+func (c *Client) drainQueues() {
+	for {
+		select {
+		case <-c.rx:
+		case <-c.tx:
+		default:
+			return
+		}
+	}
 }
 
 // readLoop sets a timeout of 300 seconds, and then attempts to read from the
